@@ -35,6 +35,11 @@ def directed():
                                                  "targets": [{"name": t, "healthy": True}]}
     out.append(([wdep(b"web", [], True, "good", b"ta:80"), wdep(b"api", [b"/api"], False, "none", b"tb:80"),
                  {"op": "stop", "name": b"api", "msg": b"down"}, {"op": "resume", "name": b"api"}], 2))
+    # restored targets are presumed healthy until their first probe - the rollout targets too: the first probe after the restart
+    # is answered late, the rollout group's requests arrive meanwhile
+    for tgt in (b"tc:8080", b"ta:80"):
+        out.append(([dep([b"ta:80"]), rdep([b"tc:8080"]), dict(rset, slow_probe_after=tgt), {"op": "resume", "name": b"web"},
+                     {"op": "rollout_set", "name": b"web", "pct": 100, "allow": []}], 3))
     for st in states:
         for fo in follow:
             h = [dep([b"ta:80", b"tb:80"])] + st + fo
@@ -44,10 +49,10 @@ def directed():
 
 def run(tier, seed):
     fx = directed()
-    if tier == "quick":      # the two special pairs and a third of the state x follow-up pairs per quick run, chosen by the seed; all in the thorough tier
-        fx = fx[:2] + [p for i, p in enumerate(fx[2:]) if i % 3 == seed % 3]
+    if tier == "quick":      # the four special pairs and a third of the state x follow-up pairs per quick run, chosen by the seed; all in the thorough tier
+        fx = fx[:4] + [p for i, p in enumerate(fx[4:]) if i % 3 == seed % 3]
     return run_property(
         "C11", tier, seed, ["C11.v", "M4link.v"], ["props/C11.vo", "props/M4link.vo"],
         profile={"deploy": 8, "deploy_fail": 2, "remove": 1, "restart": 1, "flap": 3, "rollout_deploy": 5, "rollout_set": 6,
                  "rollout_stop": 1, "pause": 4, "stop": 4, "resume": 4, "rollout_template": True},
-        monitor="c11_ok h1 h2 k", n_quick=24, n_thorough=400, pair_restart=True, len_range=(3, 12), fixed=fx)
+        monitor="c11_ok h1 h2 k && c11_restart_step_ok h1 h2 k", n_quick=24, n_thorough=400, pair_restart=True, len_range=(3, 12), fixed=fx)
